@@ -41,6 +41,7 @@ def make_config(rng, profile, tier):
     cfg['order_reversing'] = reverse
     cfg['threads'] = rng.choice([1, 2, 3])
     cfg['save_iter'] = rng.random() < 0.5
+    cfg['dup_objects'] = rng.random() < 0.4
     return cfg
 
 
@@ -107,6 +108,7 @@ class Universe:
         sess = self.sess
         if first:
             self.ll, self.w, self.betas = specs.build_formulas(sess.cfg, name_map=self.map, reverse_terms=self.reverse)
+            self.twins = self.betas.pop('__twins__', [])
         p = Parameters()
         p.set_value('save_iterations', bool(sess.cfg.get('save_iter')))
         p.set_value('generate_html', False)
@@ -217,6 +219,9 @@ class Session:
             free = self.free_names()
             chosen = rng.sample(free, rng.randrange(1, len(free) + 1))
             new = {n: round(self._feasible(n, self.store[n]['value'] + rng.uniform(-0.5, 0.5)), 4) for n in chosen}
+            if a[0] % 3 == 0:
+                n0_ = chosen[0]
+                new[n0_] = self._feasible(n0_, 0.0)      # the value 0 is a value like any other
             for u in self.U:
                 d = {u.nm(n): v for n, v in new.items()}
                 if a[1]:
@@ -483,6 +488,11 @@ class Session:
                 if abs(float(gbv[un]) - s['value']) > tol * max(1.0, abs(s['value'])):
                     ctx.fail('I03.store', f'after {after}: get_beta_values()[{un}] = {float(gbv[un])!r}, the store holds '
                                           f'{n} = {s["value"]!r}')
+            for an_, tw_ in getattr(u, 'twins', []):
+                s_ = self.store[an_]
+                if abs(tw_.initValue - s_['value']) > tol * max(1.0, abs(s_['value'])) or (tw_.status == 0) != s_['free']:
+                    ctx.fail('I03.partial', f'after {after}: a second Beta object named {u.nm(an_)} holds {tw_.initValue!r} '
+                                            f'(status {tw_.status}), the store says {s_["value"]!r} / free={s_["free"]}')
             free = sorted(u.nm(n) for n in self.free_names())
             if sorted(u.b.free_beta_names) != free:
                 ctx.fail('I03.store', f'after {after}: free parameters {u.b.free_beta_names}, the store says {free}')
